@@ -34,7 +34,7 @@ func hostileOpts(av map[string]string, onEx, onCl func(string)) *synth.Opts {
 	return &synth.Opts{Avoid: av, OnExclude: onEx, OnClass: onCl,
 		Pointers: true, Unions: 1, Hostile: true, RareBasics: true, Recursion: true, SubPkgs: true, Generics: true, Aliases: true,
 		Embedded: true, StdTypes: true, Spelling: true, TagVariety: true, EnumStress: true, FixedArrays: true, Maps: true, Times: true, MaxDecls: 10, MinDecls: 1,
-		NamedRecursion: true, ZeroArrays: true, SameNamePkgs: true, ShortModule: true, StdNamedPkgs: true, RecursiveUnions: true, Diamonds: true}
+		NamedRecursion: true, ZeroArrays: true, SameNamePkgs: true, ShortModule: true, StdNamedPkgs: true, RecursiveUnions: true, Diamonds: true, NestedGenerics: true}
 }
 
 func c18Gen(t *rapid.T, r *h.Rec) c18Case {
